@@ -52,7 +52,7 @@ pub async fn apply(sim: &mut Sim, action: &Action) {
             sim.connect_worker(spec);
         }
         Action::Kill { w, reason } => {
-            if reason.is_failure() {
+            if reason.is_failure() || sim.workers.get(w).map(|h| h.partitioned).unwrap_or(false) {
                 sim.kill_worker(*w, *reason);
             } else {
                 // graceful end: what the worker has already sent still arrives
@@ -82,6 +82,7 @@ pub async fn apply(sim: &mut Sim, action: &Action) {
         Action::Advance { secs } => sim.advance(*secs).await,
         Action::ArmLaunchFail { w } => sim.arm_launch_fail(*w),
         Action::ArmSlowStop { w } => sim.arm_slow_stop(*w),
+        Action::Partition { w } => sim.partition(*w),
         Action::AgeWorker { w, secs } => {
             if let Some(h) = sim.workers.get(w) {
                 h.sim.shift_start_time(std::time::Duration::from_secs(*secs));
@@ -250,6 +251,12 @@ fn next_drain_action(sim: &mut Sim) -> Option<Action> {
     }
     if !sim.pending_prunes.is_empty() {
         return Some(Action::AnswerPrune);
+    }
+    // the server eventually gives up on a worker it does not hear from
+    for w in sim.workers.values() {
+        if w.partitioned {
+            return Some(Action::Kill { w: w.id, reason: Reason::HeartbeatLost });
+        }
     }
     for w in sim.workers.values() {
         if !w.to_server.is_empty() {
